@@ -7,17 +7,27 @@
 EXTENDS Integers, Sequences
 CONSTANT MAXRUN            \* 3
 
-(* length of the run of equal symbols ending at position i *)
+(* position i of s is kept by run collapsing iff it is among the first MAXRUN symbols of its run,
+   i.e. iff it is NOT preceded by MAXRUN symbols equal to it *)
+Keep(s, i) == ~(i > MAXRUN /\ \A d \in 1..MAXRUN : s[i - d] = s[i])
+IsNormalized(s) == \A i \in 1..Len(s) : Keep(s, i)
+(* declarative, and linear for TLC (SelectSeq is evaluated natively): the kept positions in order *)
+Normalize(s) ==
+  LET kept == SelectSeq([i \in 1..Len(s) |-> i], LAMBDA i : Keep(s, i)) IN
+  [j \in 1..Len(kept) |-> s[kept[j]]]
+
+(* the same two notions by recursion over the string, as first written; kept as the reference the
+   definitions above are model-checked against (MCDual: NormalizeDefsAgree), not used on traces:
+   TLC's evaluation of a recursion of depth n costs far more than n steps for n in the thousands *)
 RECURSIVE RunEndingAt(_, _)
 RunEndingAt(s, i) == IF i = 1 \/ s[i] # s[i - 1] THEN 1 ELSE 1 + RunEndingAt(s, i - 1)
-IsNormalized(s) == \A i \in 1..Len(s) : RunEndingAt(s, i) <= MAXRUN
-(* declarative: keep exactly the positions that are among the first MAXRUN of their run *)
+IsNormalizedRec(s) == \A i \in 1..Len(s) : RunEndingAt(s, i) <= MAXRUN
 RECURSIVE NormAcc(_, _, _, _)
 NormAcc(s, i, run, acc) ==              \* run = length of the run ending at i-1 (0 if i = 1)
   IF i > Len(s) THEN acc
   ELSE LET r == IF i > 1 /\ s[i] = s[i - 1] THEN run + 1 ELSE 1 IN
        NormAcc(s, i + 1, r, IF r <= MAXRUN THEN Append(acc, s[i]) ELSE acc)
-Normalize(s) == NormAcc(s, 1, 0, <<>>)
+NormalizeRec(s) == NormAcc(s, 1, 0, <<>>)
 
 (* a fuzzy hash value: [k |-> block size index, a |-> block hash 1, b |-> block hash 2] *)
 NormalizeHash(h) == [k |-> h.k, a |-> Normalize(h.a), b |-> Normalize(h.b)]
